@@ -174,6 +174,7 @@ func (x *cfsExec) Step(label, from, to json.RawMessage) bool {
 	ctx := context.Background()
 	var err error
 	var newEnt p9p.Dirent
+	namesChanged := ""
 	ent := x.ents[l.E]
 	if l.Op != "attach" && ent == nil {
 		x.res.Violate("harness", "harness:cfs-noent", fmt.Sprintf("no entry for fid %d", l.E), nil)
@@ -184,7 +185,11 @@ func (x *cfsExec) Step(label, from, to json.RawMessage) bool {
 		case "attach":
 			newEnt, err = x.client.Attach(ctx, "u", "/", nil)
 		case "walk":
-			_, newEnt, err = ent.Walk(ctx, l.Names...)
+			names := append([]string{}, l.Names...)
+			_, newEnt, err = ent.Walk(ctx, names...)
+			if !reflect.DeepEqual(names, l.Names) {
+				namesChanged = fmt.Sprintf("%q -> %q", l.Names, names)
+			}
 		case "stat":
 			_, err = ent.Stat(ctx)
 		case "wstat":
@@ -208,6 +213,11 @@ func (x *cfsExec) Step(label, from, to json.RawMessage) bool {
 		return false
 	}
 	good := true
+	if namesChanged != "" {
+		// the name list belongs to the caller (who may walk the same path again from another entry)
+		x.viol("walk-modifies-names", "Walk rewrote its caller's name list: "+namesChanged)
+		good = false
+	}
 	// 1. the session call issued
 	want := []spyCall{}
 	if l.Call.M != "none" {
